@@ -173,6 +173,18 @@ CHECKS["C12"] = dict(
          "is a floating-point effect outside this family's reach; longest axis only with a strictly longest side, up to sign.",
     technique="TLA+ spec (LatticeGeom, exact integer geometry) model-checked by TLC + TLC validation (GeomTrace) of the real cell's reported geometry")
 
+CHECKS["C02"] = dict(
+    category="model_checking", design_ref="DESIGN.md §C02",
+    text="spec/Geom/LatticeForces states pressure and tension forces on the integer lattice (exact); TLC checks for tetrahedron / octahedron / bipyramid / unit "
+         "cube at the 24 lattice rotations and several translations: pressure force = pressure x gradient of the volume (two different formulas), zero resultant "
+         "and torque of pressure and tension forces, rigid covariance. Real apply_pressure_on_surface and apply_surface_tension_and_membrane_elasticity on lattice "
+         "meshes (seeds, cube, boxes; rotations, translations, three units) are compared exactly per node by TLC (ForceTrace). For every term incl. bending and "
+         "angle regularisation and for all together, on jittered ellipsoids with random parameter sets: zero resultant, zero torque, covariance under a random "
+         "rigid motion, finite-difference agreement of pressure (P dV/dx) and tension/elasticity (- sum tau_f dA_f/dx) -- driver verdicts required by TLC.",
+    note="Exact only on the lattice (tension only with lattice unit normals). Bending / angle terms are not specified in TLA+ (acos, cot): their sub-claims are "
+         "decided by harness-evaluated numeric verdicts (tolerances 1e-9 / 1e-7 / 1e-5), which is numeric testing under TLC's bookkeeping, not model checking.",
+    technique="TLA+ spec (LatticeForces, exact) model-checked by TLC + TLC validation (ForceTrace) of real forces: exact on lattice meshes, harness-evaluated verdicts on generic meshes")
+
 PENDING = {}   # property id -> reason (filled below for everything not in CHECKS)
 NOT_APPLICABLE = {
  "C10": "memory safety / undefined behaviour has no representation in a TLA+ state (no addresses, lifetimes or indeterminate values); "
